@@ -12,7 +12,7 @@ from ..execu import run
 from ..runner import short
 
 ID = "C15"
-N = {"quick": 4000, "thorough": 120000}
+N = {"quick": 24000, "thorough": 120000}
 TIME_BUDGET = {"quick": 50, "thorough": 540}
 MIN_NONTRIVIAL = {"quick": 300, "thorough": 3000}
 RULE = ("cases = a schema document composed from exactly the keywords the property lists (type, format, minimum / maximum / "
